@@ -232,6 +232,24 @@ def each_family(ctx):
     pcommon.model_agreement(ctx, parse_recs, "each-parse-outcomes")
 
 
+def each_nullable_operand(ctx):
+    """F-01a: a plain (required) operand of '&' that can match empty is put into BOTH `required` and `optionals` by
+    Each.parseImpl's one-time grouping, so it may be matched twice (closed Coq witness: Props/C01.v C01_each_once_refuted)"""
+    import pyparsing as pp
+    cases = [("Group(Opt('a')) & 'x' on 'a x a'", lambda: (pp.Group(pp.Opt("a")) & pp.Literal("x")).parse_string("a x a").as_list(), [["a"], "x"]),
+             ("(Opt('a') + Opt('b')) & 'x' on 'aax'", lambda: ((pp.Opt("a") + pp.Opt("b")) & pp.Literal("x")).parse_string("aax").as_list(), ["a"])]
+    for name, f, once in cases:
+        try:
+            got = f()
+        except pp.ParseBaseException as e:
+            got = type(e).__name__
+        ctx.case("each-nullable:" + name, True, True)
+        # with each operand used at most once the second 'a' cannot be consumed
+        if isinstance(got, list) and sum(1 for t in got if t == "a" or t == ["a"]) >= 2:
+            ctx.violation("each:nullable-required-operand-matched-twice", "%s gives %r: the operand that can match empty was matched twice" % (name, got),
+                          {"kind": "each-nullable"})
+
+
 def each_impl(g, inp):
     import pyparsing as pp
     from tools.harness import build
@@ -264,6 +282,7 @@ def correspond(ctx):
     groups += whitespace_family()
     recs = run(ctx, groups)
     each_family(ctx)
+    each_nullable_operand(ctx)
     for r in [x for x in recs if x["entry"][0] == "parse"][200:203]:
         ctx.sample({"grammar": r["g"], "input": r["inp"], "impl": peg_of_real(r["real"])})
 
@@ -297,6 +316,13 @@ def replay(ctx, obj):
         print("implementation:", got)
         print("PEG reading   :", want)
         return want == got
+    if r.get("kind") == "each-nullable":
+        c2 = vlib.Ctx(PROP, "quick", 0)
+        c2.known = {}
+        each_nullable_operand(c2)
+        for v in c2.violations:
+            print(v["what"])
+        return not c2.violations
     if r.get("kind") == "each":
         g = _tuplify(r["grammar"])
         got, want = each_impl(g, r["input"]), peg_ref.reading(g, {}, r["input"])
